@@ -24,15 +24,15 @@ var CollNames = []sgbucket.DataStoreNameImpl{
 }
 
 type Config struct {
-	Disk     bool `json:"disk"`
-	Buckets  int  `json:"buckets"`
-	Handles  int  `json:"handles"`
-	Colls    int  `json:"colls"`
-	FeedsPer int  `json:"feedsPer"`           // live feeds per collection (started through alternating handles)
-	Marker   bool `json:"marker"`             // fence every step with a marker write
-	KeysOnly bool `json:"keysOnly,omitempty"` // additionally register a KeysOnly feed on every collection BEFORE the full feeds
-	MaxDoc   int  `json:"maxDoc,omitempty"`
-	Name     string `json:"name,omitempty"` // fixed bucket name (crash engine); the bucket lives in <tmp>/<name>
+	Disk     bool   `json:"disk"`
+	Buckets  int    `json:"buckets"`
+	Handles  int    `json:"handles"`
+	Colls    int    `json:"colls"`
+	FeedsPer int    `json:"feedsPer"`           // live feeds per collection (started through alternating handles)
+	Marker   bool   `json:"marker"`             // fence every step with a marker write
+	KeysOnly bool   `json:"keysOnly,omitempty"` // additionally register a KeysOnly feed on every collection BEFORE the full feeds
+	MaxDoc   int    `json:"maxDoc,omitempty"`
+	Name     string `json:"name,omitempty"`   // fixed bucket name (crash engine); the bucket lives in <tmp>/<name>
 	Reopen   bool   `json:"reopen,omitempty"` // open an existing on-disk bucket instead of creating it
 }
 
@@ -300,29 +300,29 @@ func (e *Env) DumpEvents(bi, h, ci int, startCas uint64, keysOnly bool) ([]Ev, e
 
 // Obs is the full read-back of one key through every read entry point.
 type Obs struct {
-	RawErr string            `json:"rawErr,omitempty"`
-	Raw    []byte            `json:"raw"`
-	RawCas uint64            `json:"rawCas"`
-	Exists bool              `json:"exists"`
-	ExErr  string            `json:"exErr,omitempty"`
-	Exp    uint32            `json:"exp"`
-	ExpErr string            `json:"expErr,omitempty"`
-	GXErr  string            `json:"gxErr,omitempty"`
-	GXBody []byte            `json:"gxBody"`
-	GX     map[string]string `json:"gx,omitempty"`
-	GXCas  uint64            `json:"gxCas"`
-	XErr   string            `json:"xErr,omitempty"`
-	X      map[string]string `json:"xo,omitempty"`
-	XCas   uint64            `json:"xCas"`
-	VErr   string            `json:"vErr,omitempty"`
-	VCas   uint64            `json:"vCas"`
-	RevID  string            `json:"revid,omitempty"` // $document.revid (JSON string)
-	DocV   string            `json:"docv,omitempty"`  // $document
-	Panic  string            `json:"panic,omitempty"`
-	GetErr     string `json:"getErr,omitempty"` // Get(key, *[]byte)
-	GetCas     uint64 `json:"getCas"`
-	GetBody    []byte `json:"getBody"`
-	GetJSONErr string `json:"getJsonErr,omitempty"` // Get(key, *any): decodes JSON bodies
+	RawErr     string            `json:"rawErr,omitempty"`
+	Raw        []byte            `json:"raw"`
+	RawCas     uint64            `json:"rawCas"`
+	Exists     bool              `json:"exists"`
+	ExErr      string            `json:"exErr,omitempty"`
+	Exp        uint32            `json:"exp"`
+	ExpErr     string            `json:"expErr,omitempty"`
+	GXErr      string            `json:"gxErr,omitempty"`
+	GXBody     []byte            `json:"gxBody"`
+	GX         map[string]string `json:"gx,omitempty"`
+	GXCas      uint64            `json:"gxCas"`
+	XErr       string            `json:"xErr,omitempty"`
+	X          map[string]string `json:"xo,omitempty"`
+	XCas       uint64            `json:"xCas"`
+	VErr       string            `json:"vErr,omitempty"`
+	VCas       uint64            `json:"vCas"`
+	RevID      string            `json:"revid,omitempty"` // $document.revid (JSON string)
+	DocV       string            `json:"docv,omitempty"`  // $document
+	Panic      string            `json:"panic,omitempty"`
+	GetErr     string            `json:"getErr,omitempty"` // Get(key, *[]byte)
+	GetCas     uint64            `json:"getCas"`
+	GetBody    []byte            `json:"getBody"`
+	GetJSONErr string            `json:"getJsonErr,omitempty"` // Get(key, *any): decodes JSON bodies
 }
 
 var virtNames = []string{"$document", "$document.revid"}
